@@ -136,6 +136,10 @@ def gen_case(rng, i):
             if via == "devfile":
                 ops.append({"op": "set_dev", "reg": 0, "v": True})
             ops += [{"op": "write_file", "file": "f0", "content": main}, {"op": "reg_file", "reg": 0, "name": "main", "file": "f0"}]
+        if via in ("string", "file") and rng.chance(0.4):
+            # the setting is read when a template is COMPILED: changing it afterwards (either way) changes nothing for templates
+            # that are already registered
+            ops.append({"op": "set_prevent_indent", "reg": 0, "v": not pi})
         ops.append({"op": "render", "reg": 0, "api": rng.pick(["render", "render_to_write"]), "name": "main", "data": enc(DATA)})
     # the partial alone, on the context it is called with
     if where == "each":
@@ -171,8 +175,15 @@ def thm_case(rng, i):
     if P.endswith("\\") or P == "":
         P += "x"
     exp = L0 + ("" if P[0] in "\n\r" else W) + with_indent(W, P) + R
+    tag = "{{> p}}"
+    if rng.chance(0.3):
+        # the same call written {{> p~}}: the `~` removes the whitespace that FOLLOWS the tag (the line break the standalone rule
+        # removes anyway, and whatever whitespace the next line begins with) – the indentation of the partial's output is untouched
+        tag = "{{> p~}}"
+        from .C11 import WS as _WS11
+        exp = L0 + ("" if P[0] in "\n\r" else W) + with_indent(W, P) + R.lstrip(_WS11)
     ops = [{"op": "reg_string", "reg": 0, "name": "p", "src": P},
-           {"op": "render", "reg": 0, "api": "render_template", "src": L0 + W + "{{> p}}" + nl + R, "data": enc({})}]
+           {"op": "render", "reg": 0, "api": "render_template", "src": L0 + W + tag + nl + R, "data": enc({})}]
     return {"kind": "session", "regs": [{"escape": "none"}], "ops": ops}, {"thm": True, "expect": exp, "W": W, "where": "thm", "n": 1, "pi": False, "p": P}
 
 
